@@ -114,6 +114,22 @@ class Closure:
 
     def __init__(self, ev: "Evaluator", node):
         self.ev, self.node = ev, node
+        # parameter defaults are evaluated once, when the `def` / lambda is evaluated (`lambda x, i=i: ...` keeps this i)
+        a = node.args
+        self._defaults = [self._early(d) for d in a.defaults]
+        self._kw_defaults = [None if d is None else self._early(d) for d in a.kw_defaults]
+
+    def _early(self, d):
+        try:
+            return ("v", self.ev.ev(d))
+        except Unsupported as ex:
+            return ("unsupported", ex)
+
+    @staticmethod
+    def _default(slot):
+        if slot[0] == "unsupported":
+            raise slot[1]
+        return slot[1]
 
     sa_callable = True
 
@@ -123,25 +139,25 @@ class Closure:
         env = dict(self.ev.env)
         kw = dict(kw)
         pos = list(args)
-        defaults = dict(zip(names[len(names) - len(a.defaults):], a.defaults))
+        defaults = dict(zip(names[len(names) - len(a.defaults):], self._defaults))
         for n in names:
             if pos:
                 env[n] = pos.pop(0)
             elif n in kw:
                 env[n] = kw.pop(n)
             elif n in defaults:
-                env[n] = self.ev.ev(defaults[n])
+                env[n] = self._default(defaults[n])
             else:
                 raise PyRaise("TypeError")
         if a.vararg:
             env[a.vararg.arg] = tuple(pos)
         elif pos:
             raise PyRaise("TypeError")
-        for k, d in zip(a.kwonlyargs, a.kw_defaults):
+        for k, d in zip(a.kwonlyargs, self._kw_defaults):
             if k.arg in kw:
                 env[k.arg] = kw.pop(k.arg)
             elif d is not None:
-                env[k.arg] = self.ev.ev(d)
+                env[k.arg] = self._default(d)
             else:
                 raise PyRaise("TypeError")
         if a.kwarg:
@@ -149,14 +165,40 @@ class Closure:
         elif kw:
             raise PyRaise("TypeError")
         child = self.ev.child(env)
+        if hasattr(child, "yields"):
+            child.yields = None  # an enclosing generator's output is not this function's
         if isinstance(self.node, ast.Lambda):
             return child.ev(self.node.body)
-        if any(isinstance(x, (ast.Nonlocal, ast.Global, ast.Yield, ast.YieldFrom)) for x in ast.walk(self.node)):
-            raise Unsupported("nested function with nonlocal/global/yield")
-        return child.run_body(self.node.body)
+        own = [x for x in _own_nodes(self.node)]
+        if any(isinstance(x, ast.Global) for x in own):
+            raise Unsupported("nested function with a global statement")
+        shared = [nm for x in own if isinstance(x, ast.Nonlocal) for nm in x.names]
+        is_gen = any(isinstance(x, (ast.Yield, ast.YieldFrom)) for x in own)
+        if is_gen:
+            child.yields = []  # run eagerly; handed out as a one-shot iterator (side effects happen at creation, not at consumption)
+        try:
+            r = child.run_body(self.node.body)
+        finally:
+            for nm in shared:
+                if nm in child.env:
+                    self.ev.env[nm] = child.env[nm]  # `nonlocal x`: the enclosing function's binding is the one that changed
+        if is_gen:
+            return PyIter(child.yields, f"generator {getattr(self.node, 'name', '<lambda>')}")
+        return r
 
     def __call__(self, *args, **kw):
         return self.sa_call(list(args), kw)
+
+
+def _own_nodes(fn):
+    """The nodes of a function's own body (not those of functions / classes nested in it)."""
+    stack = list(fn.body) if isinstance(fn.body, list) else [fn.body]
+    while stack:
+        n = stack.pop()
+        yield n
+        for c in ast.iter_child_nodes(n):
+            if not isinstance(c, (ast.FunctionDef, ast.AsyncFunctionDef, ast.Lambda, ast.ClassDef)):
+                stack.append(c)
 
 
 def _as_iterable(seq):
@@ -252,6 +294,10 @@ class Evaluator:
                 if r is not _MISSING:
                     return r
             raise Unsupported(f"free name {e.id}")
+        if isinstance(e, ast.NamedExpr) and isinstance(e.target, ast.Name):
+            v = self.ev(e.value)
+            self.env[e.target.id] = v
+            return v
         if isinstance(e, (ast.Tuple, ast.List)):
             vals = []
             for x in e.elts:
@@ -373,8 +419,14 @@ class Evaluator:
             ops = {ast.Add: operator.add, ast.Sub: operator.sub, ast.Mult: operator.mul, ast.BitXor: operator.xor, ast.BitAnd: operator.and_, ast.BitOr: operator.or_, ast.LShift: operator.lshift, ast.RShift: operator.rshift, ast.Pow: operator.pow, ast.FloorDiv: operator.floordiv, ast.Mod: operator.mod}
             if isinstance(e.op, (ast.Pow, ast.LShift)) and (not isinstance(r, int) or r < 0 or r > 4096):
                 raise Unsupported("exponent out of range")
+            if isinstance(e.op, ast.Div):
+                ops = dict(ops)
+                ops[ast.Div] = operator.truediv
             if type(e.op) in ops:
-                return ops[type(e.op)](l, r)
+                try:
+                    return ops[type(e.op)](l, r)
+                except (ZeroDivisionError, OverflowError) as ex:
+                    raise PyRaise(type(ex).__name__)
             raise Unsupported(f"binary {type(e.op).__name__}")
         if isinstance(e, ast.JoinedStr):
             parts = []
@@ -583,11 +635,16 @@ class Evaluator:
                         if "default" in kw:
                             return kw["default"]
                         raise PyRaise("ValueError")  # max() / min() of an empty sequence
+                    keyf = kw.get("key")
+                    if keyf is not None and not callable(keyf):
+                        raise Unsupported(f"{fn.id}(key=...) with a key the evaluator cannot call")
                     best = seq[0]
+                    best_k = keyf(best) if keyf is not None else best
                     for x in seq[1:]:
-                        better = self.compare(ast.Gt() if fn.id == "max" else ast.Lt(), x, best)
+                        xk = keyf(x) if keyf is not None else x
+                        better = self.compare(ast.Gt() if fn.id == "max" else ast.Lt(), xk, best_k)
                         if self.truth(better):
-                            best = x
+                            best, best_k = x, xk
                     return best
                 if fn.id == "any":
                     return any(self.truth(x) for x in args[0])
@@ -597,8 +654,28 @@ class Evaluator:
                     return list(args[0])
                 if fn.id == "tuple" and len(args) == 1:
                     return tuple(args[0])
-                if fn.id == "enumerate" and len(args) == 1:
-                    return [(i, x) for i, x in enumerate(args[0])]
+                if fn.id == "enumerate" and len(args) in (1, 2):
+                    start = kw.get("start", args[1] if len(args) == 2 else 0)
+                    if not isinstance(start, int):
+                        raise PyRaise("TypeError")
+                    return [(i, x) for i, x in enumerate(args[0], start)]
+            if isinstance(fn, ast.Name) and fn.id not in self.env and any(isinstance(a, ast.Starred) for a in e.args) and fn.id in ("max", "min", "sum", "len", "list", "tuple", "set", "sorted", "any", "all", "print", "zip", "range", "dict", "str", "int"):
+                # f(*xs): the arguments are what the expansion yields, each evaluated once
+                return self.ev(ast.copy_location(ast.Call(func=fn, args=[ast.Constant(v) for v in self.ev_args(e)], keywords=e.keywords), e))
+            if isinstance(fn, ast.Name) and fn.id == "dict" and fn.id not in self.env and e.keywords and len(e.args) <= 1 and not any(isinstance(a, ast.Starred) for a in e.args):
+                try:
+                    out = dict(self.ev(e.args[0])) if e.args else {}
+                except (TypeError, ValueError) as ex:
+                    raise PyRaise(type(ex).__name__)
+                for k in e.keywords:
+                    if k.arg is None:
+                        sub = self.ev(k.value)
+                        if not isinstance(sub, dict):
+                            raise Unsupported("** of a non-dict")
+                        out.update(sub)
+                    else:
+                        out[k.arg] = self.ev(k.value)
+                return out
             if isinstance(fn, ast.Name) and not e.keywords and not any(isinstance(a, ast.Starred) for a in e.args):
                 if fn.id == "isinstance" and len(e.args) == 2:
                     args = [self.ev(e.args[0]), None]
@@ -696,6 +773,46 @@ class Evaluator:
                 raise PyRaise("TypeError")  # a value of this type is not callable
             raise Unsupported(f"call {ast.unparse(e)[:40]}{why}")
         raise Unsupported(f"expression {type(e).__name__}")
+
+    def _exc_type_value(self, name: str):
+        return Record("exception-type", {"__name__": name})
+
+    def _with(self, st: ast.With, i: int):
+        """The context-manager protocol, one item at a time: __enter__'s value is bound; __exit__ is called however the body is
+        left (normally, by an exception - which a true result swallows -, by return / break / continue).  World-provided
+        stand-ins without the two methods (files, archives) are bound as they are."""
+        if i == len(st.items):
+            self._block(st.body)
+            return
+        it = st.items[i]
+        cm = self.ev(it.context_expr)
+        enter = exit_ = None
+        if hasattr(cm, "sa_attr") and not isinstance(cm, Record):
+            try:
+                enter, exit_ = cm.sa_attr("__enter__"), cm.sa_attr("__exit__")
+            except PyRaise:
+                raise PyRaise("TypeError")  # not a context manager
+        elif isinstance(cm, Record) and "()__enter__" in cm.fields and "()__exit__" in cm.fields:
+            enter, exit_ = cm.fields["()__enter__"], cm.fields["()__exit__"]
+        v = enter() if enter is not None else cm
+        if it.optional_vars is not None:
+            if not isinstance(it.optional_vars, ast.Name):
+                raise Unsupported("with-target")
+            self.env[it.optional_vars.id] = v
+        if exit_ is None:
+            self._with(st, i + 1)
+            return
+        try:
+            self._with(st, i + 1)
+        except PyRaise as pe:
+            exc = Record("exception", {"name": pe.name, "args": (), "__str__": pe.name})
+            if self.truth(exit_(self._exc_type_value(pe.name), exc, None)):
+                return  # swallowed
+            raise
+        except (ReturnValue, _Break, _Continue):
+            exit_(None, None, None)
+            raise
+        exit_(None, None, None)
 
     def _bind_target(self, t: ast.AST, item):
         if isinstance(t, ast.Name):
@@ -843,13 +960,7 @@ class Evaluator:
                     if not ("Exception" in names or "BaseException" in names or any(a in names for a in _exc_ancestors(pe.name))):
                         raise
             elif isinstance(st, ast.With):
-                for it in st.items:
-                    v = self.ev(it.context_expr)
-                    if it.optional_vars is not None:
-                        if not isinstance(it.optional_vars, ast.Name):
-                            raise Unsupported("with-target")
-                        self.env[it.optional_vars.id] = v
-                self._block(st.body)
+                self._with(st, 0)
             elif isinstance(st, ast.While):
                 broke = False
                 while self.truth(self.ev(st.test)):
@@ -885,7 +996,7 @@ class Evaluator:
                 if isinstance(cont, Record) and "__setitem__" in cont.fields:
                     idx = self._index(t.slice)
                     cont.fields["__setitem__"](idx, v)
-                elif isinstance(cont, (list, dict)):
+                elif isinstance(cont, (list, dict, bytearray)):
                     idx = self._index(t.slice)
                     try:
                         if isinstance(idx, slice) and isinstance(v, Record) and callable(v.fields.get("__iter__")):
@@ -909,33 +1020,46 @@ class Evaluator:
                     else:
                         raise Unsupported("del of a non-container item")
             elif isinstance(st, ast.Try):
+                # Python's semantics: the finally block runs however the statement is left - normally, by an exception (of the
+                # body, of a handler, of the else block), by return / break / continue.  (An Unsupported is the analyser's own
+                # "cannot tell": nothing of the program runs after it.)
                 try:
-                    self._block(st.body)
-                except PyRaise as pe:
-                    handled = False
-                    for h in st.handlers:
-                        names = []
-                        if h.type is None:
-                            names = None
-                        elif isinstance(h.type, ast.Tuple):
-                            names = [ast.unparse(x).split(".")[-1] for x in h.type.elts]
+                    try:
+                        self._block(st.body)
+                    except PyRaise as pe:
+                        for h in st.handlers:
+                            if h.type is None:
+                                names = None
+                            elif isinstance(h.type, ast.Tuple):
+                                names = [ast.unparse(x).split(".")[-1] for x in h.type.elts]
+                            else:
+                                names = [ast.unparse(h.type).split(".")[-1]]
+                            if names is None or "Exception" in names or "BaseException" in names or any(a in names for a in _exc_ancestors(pe.name)):
+                                if h.name:
+                                    self.env[h.name] = Record("exception", {"name": pe.name, "args": (), "__str__": pe.name})
+                                outer = getattr(self, "_handling", None)
+                                self._handling = pe.name  # what a bare `raise` in the handler re-raises
+                                try:
+                                    self._block(h.body)
+                                finally:
+                                    self._handling = outer
+                                break
                         else:
-                            names = [ast.unparse(h.type).split(".")[-1]]
-                        if names is None or "Exception" in names or "BaseException" in names or any(a in names for a in _exc_ancestors(pe.name)):
-                            handled = True
-                            try:
-                                self._block(h.body)
-                            finally:
-                                pass
-                            break
-                    if not handled:
-                        self._block(st.finalbody)
-                        raise
-                else:
-                    self._block(st.orelse)
+                            raise
+                    else:
+                        self._block(st.orelse)
+                except (PyRaise, ReturnValue, _Break, _Continue):
+                    self._block(st.finalbody)
+                    raise
                 self._block(st.finalbody)
+            elif isinstance(st, ast.Nonlocal):
+                pass  # handled by the call that runs this body: the names are written back to the enclosing function
             elif isinstance(st, ast.Raise):
                 name = "Exception"
+                if st.exc is None:
+                    if getattr(self, "_handling", None) is None:
+                        raise PyRaise("RuntimeError")  # no active exception to re-raise
+                    raise PyRaise(self._handling)
                 if st.exc is not None:
                     name = ast.unparse(st.exc.func if isinstance(st.exc, ast.Call) else st.exc).split(".")[-1]
                 raise PyRaise(name)
@@ -950,7 +1074,7 @@ class Evaluator:
                         callee = ast.unparse(v.func)
                     except Exception:
                         callee = ""
-                    if callee == "print" or callee.startswith(("logger.", "logging.", "log.", "_log.", "LOGGER.", "warnings.", "sys.stderr.", "sys.stdout.write")):
+                    if (callee == "print" or callee.startswith(("logger.", "logging.", "log.", "_log.", "LOGGER.", "warnings.", "sys.stderr.", "sys.stdout.write"))) and callee.split(".")[0] not in self.env:  # (a local variable that happens to be called `log` is data, not a logger)
                         try:
                             self.ev(v)
                         except Unsupported:
